@@ -87,7 +87,7 @@ def readAll (F : Fmt) (newRule : Bool) (mode : Mode) (file : Bytes) (k : Nat) : 
 before the completeness test) -/
 
 inductive Res (α : Type) | ok (a : α) | stop | err
-deriving Repr
+deriving Repr, DecidableEq
 
 def accumulateCap (F : Fmt) (newRule : Bool) (file : Bytes) (k cap : Nat) :
     Nat → Nat → Bytes → Bool → Res (Bytes × Nat × Bool)
